@@ -26,6 +26,9 @@ pub struct Case {
     pub sleeps: Vec<(String, String, u64)>,
     /// internal delays at guarded points (name, ms)
     pub delays: Vec<(String, u64)>,
+    /// bit k: the k-th installed command file is a symbolic link to the real script
+    #[serde(default)]
+    pub symlinks: u32,
 }
 
 pub const DELAY_POINTS: [&str; 8] = [
@@ -49,8 +52,9 @@ pub fn strategy() -> impl Strategy<Value = Case> {
         vec(0u64..40, 24),
         vec((0usize..DELAY_POINTS.len(), 0u64..60), 0..=3),
         0u8..4,
+        prop_oneof![1 => Just(0u32), 1 => any::<u32>()],
     )
-        .prop_map(|(layers, picks, ncmd, rfaults, fou, rnd, rdelays, sleep_mode)| {
+        .prop_map(|(layers, picks, ncmd, rfaults, fou, rnd, rdelays, sleep_mode, symlinks)| {
             let config = gen::layered_config(&layers, &picks);
             let n = config.targets.len();
             let commands: Vec<String> = (0..ncmd).map(|i| format!("c{}", i)).collect();
@@ -90,6 +94,7 @@ pub fn strategy() -> impl Strategy<Value = Case> {
                 fail_on_undefined: fou,
                 sleeps,
                 delays,
+                symlinks,
             }
         })
 }
@@ -117,7 +122,13 @@ pub fn check(case: &Case, w: usize) -> CheckResult {
             continue;
         }
         let file = bb::simple_cmd_file(cfg, t, c);
-        env.install_command(&file, f != Some(&Fault::NotExecutable));
+        let nth = plan.len();
+        if case.symlinks >> (nth % 32) & 1 == 1 {
+            // the x bit that counts is the one of the file the link points to
+            env.install_command_symlink(&file, &format!("tools/linked/{}-{}.sh", c, nth), f != Some(&Fault::NotExecutable));
+        } else {
+            env.install_command(&file, f != Some(&Fault::NotExecutable));
+        }
         let exit = match f {
             Some(Fault::Exit(k)) => *k,
             _ => 0,
@@ -337,6 +348,7 @@ pub fn check(case: &Case, w: usize) -> CheckResult {
         .class_if(later_work, "work-after-failure")
         .class_if(!case.delays.is_empty(), "internal-delays")
         .class_if(case.fail_on_undefined, "fail-on-undefined")
+        .class_if(case.symlinks != 0, "symlinked-command-files")
         .class(&format!("groups={}", ngroups.min(4)))
         .inv(env.invocations);
     for f in &case.faults {
@@ -370,6 +382,7 @@ pub fn sweep_cases() -> Vec<Case> {
                     fail_on_undefined: false,
                     sleeps,
                     delays: vec![(p.to_string(), d)],
+                    symlinks: 0,
                 });
             }
         }
